@@ -60,6 +60,15 @@ def run(run):
     _r4_cleanup(run)
     _r5_pixelization(run)
     parity.check(run, "C09.R6", skip_classes=("ToastSampler", "TileMerger", "StudyTiling"))
+    # flipping an input (image or description) to the tile parity must be the exact reflection decided by C16
+    from . import C16 as c16
+    from sa import sym as _sym
+
+    def flips(sub):
+        ev16 = _sym.make_evaluator(sub.project, "toasty.image", [], inline_local=True)
+        c16._r1(sub, ev16)
+        c16._r2(sub)
+    common.delegate(run, "C09.R2", "C16", flips, only_rules={"C16.R1", "C16.R2"}, note="premise: a flipped input keeps its sky position")
 
 
 IMG, DESC = ("sym", "IMG"), ("sym", "DESC")
